@@ -61,6 +61,8 @@ func modeSec(c *Ctx) {
 		tags      []string
 		accepted  map[string]bool // scheme keys whose authenticator accepted during this request
 		consulted int
+		body      string // what the handler could still read from the request body
+		readBody  bool
 	}
 	var cur *obs
 	api := c.NewAPI(func(op *Op) func(ctx context.Context, req reflect.Value) reflect.Value {
@@ -71,6 +73,10 @@ func modeSec(c *Ctx) {
 			}
 			// the request handed to the handler must be the one the authenticator returned
 			if hr := req.MethodByName("HTTP"); hr.IsValid() {
+				if r, ok := hr.Call(nil)[0].Interface().(*http.Request); ok && r != nil && r.Body != nil {
+					bs, _ := io.ReadAll(r.Body)
+					cur.body, cur.readBody = string(bs), true
+				}
 				if r, ok := hr.Call(nil)[0].Interface().(*http.Request); ok && r != nil {
 					if t, ok := r.Context().Value(ctxTagKey{}).([]string); ok && len(cur.tags) == 0 {
 						cur.tags = t
@@ -187,6 +193,7 @@ func modeSec(c *Ctx) {
 				q := r.URL.Query()
 				cred := map[string]string{}
 				hasMalformed := false
+				sentBody := ""
 				// schemes sharing a carrier (same header) cannot carry different credentials: last writer wins, reference follows the wire
 				for i, k := range keys {
 					s := schemes[k]
@@ -209,6 +216,7 @@ func modeSec(c *Ctx) {
 							cred["qry:"+s.Name] = "good-" + k
 						}
 						body := form.Encode()
+						sentBody = body
 						r.Body = io.NopCloser(strings.NewReader(body))
 						r.ContentLength = int64(len(body))
 						r.Header.Set("Content-Type", "application/x-www-form-urlencoded")
@@ -330,6 +338,10 @@ func modeSec(c *Ctx) {
 				c.Distinct(fmt.Sprintf("%s|%v|%v|%s", op.Key, req, as, nilScheme))
 				if panicked {
 					continue
+				}
+				if sentBody != "" && cur.ran && cur.readBody && cur.body != sentBody {
+					// checking credentials must leave the request as it came: the body is the handler's to read
+					c.Viol("request-altered", "the handler could not read the request body any more after the security check", in, sentBody, cur.body)
 				}
 				if hasMalformed {
 					c.Stat("malformed_credential_requests", 1)
